@@ -4,6 +4,8 @@
    start / clear / stop calls and every schedule (label sequence; labels that are not enabled
    are skipped, spurious wake-ups included). Workers do not expire. *)
 From Coq Require Import List ZArith Bool Lia Sorted.
+From Tulz Require Import RaceModel AtomicSections.
+From TulzGen Require Import Accesses.
 From Tulz Require Import Common PoolModel PoolInv PoolProofsA.
 Import ListNotations.
 
@@ -56,3 +58,16 @@ Example C07_nonvacuous :
   (rev (evs s), own s, prog s)
   = ([EvSpawn 0; EvBegin 0 0; EvEnd 0 0; EvDelete 0; EvDelete 1; EvStopReturned], OIdle, []).
 Proof. vm_compute. reflexivity. Qed.
+
+(* A premise of the micro-step model (a worker's look at the queue and its removal of the front task are one step, as
+   are the owner's push and clear), checked on the access rows the translator extracted from the CURRENT source
+   (TulzGen.Accesses, regenerated on every run): every access to the task queue is made holding m_queueMutex, hence
+   no two threads ever touch the queue at the same time (AtomicSections.v). *)
+Theorem C07_queue_sections : forall n os t1 t2 a1 a2,
+  t1 <> t2 -> In a1 extracted_accesses -> In a2 extracted_accesses ->
+  RaceModel.a_comp a1 = pool_component -> RaceModel.a_comp a2 = pool_component ->
+  RaceModel.a_field a1 = pool_queue -> RaceModel.a_field a2 = pool_queue ->
+  RaceModel.can_perform (RaceModel.lrun (RaceModel.linit n) os) t1 a1 ->
+  RaceModel.can_perform (RaceModel.lrun (RaceModel.linit n) os) t2 a2 -> False.
+Proof. apply (AtomicSections.field_exclusive pool_component pool_queue pool_queue_mutex). vm_compute. reflexivity. Qed.
+Print Assumptions C07_queue_sections.
